@@ -47,35 +47,42 @@ def model_eval(ctx, name, cases, nproc=None):
 
 
 def impl_eval(ctx, exe, cases):
-    """-> (dumps per case, index of the first case that crashed the harness or None, info)"""
+    """-> (dumps per case, index of the first case that crashed the harness or None, info).
+    A crash / abort / timeout / sanitizer report of the harness never loses the
+    other cases: the cases after the one that was executing are run again in a
+    fresh process."""
     from concurrent.futures import ThreadPoolExecutor
 
     def one(part):
         txt = "".join(gen.harness_text(c) for c in part)
-        rc, out = ctx.run_harness(exe, input=txt, env=HENV, timeout=1800)
+        rc, out = ctx.run_harness(exe, input=txt, env=HENV, timeout=max(120, min(1800, 2 * len(part))))
         res, done = gen.parse_harness(out, len(part))
+        why = gen.abnormal(rc, out, done)
         crashed = None
-        if rc != 0 or not done:
-            # the first case without a complete dump is the one that crashed
+        if why:
+            # the first case without a complete dump is the one that was executing
             for i, (c, r) in enumerate(zip(part, res)):
                 if len(r) != len(c["ops"]):
                     crashed = i
                     break
             if crashed is None:
                 crashed = len(part) - 1
-            # the cases after the crash were not executed: run them separately
+                res[crashed] = res[crashed][:-1]      # mark it incomplete
             rest = part[crashed + 1:]
+            res = res[:crashed + 1]
             if rest:
                 res2, _, _ = one(rest)
-                res = res[:crashed + 1] + res2
-        return res, crashed, (rc, out[-1500:])
+                res += res2
+            else:
+                res += []
+        return res, crashed, (why, out[-1500:])
 
     if not cases:
-        return [], None, (0, "")
+        return [], None, (None, "")
     parts = _split(cases, NPAR if len(cases) > 50 else 1)
     with ThreadPoolExecutor(max_workers=NPAR) as ex:
         outs = list(ex.map(one, parts))
-    res, crashed, info, base = [], None, (0, ""), 0
+    res, crashed, info, base = [], None, (None, ""), 0
     for part, (r, c, inf) in zip(parts, outs):
         res += r
         if c is not None and crashed is None:
@@ -101,10 +108,15 @@ def evaluate(ctx, exe, cases, name):
     model = model_eval(ctx, name, cases)
     out = []
     for i, c in enumerate(cases):
+        dead = len(impl[i]) != len(c["ops"])         # harness died while executing this op list
+        try:
+            orc = None if dead else oracle.check_case(c, impl[i])
+        except Exception as e:                       # an undecodable dump is a finding, not an internal error
+            orc = (0, "oracle could not interpret the implementation's output: %r" % e)
         out.append({"case": c, "impl": impl[i], "model": model[i],
                     "diff": first_diff(impl[i], model[i]),
-                    "oracle": oracle.check_case(c, impl[i]),
-                    "crashed": crashed == i})
+                    "oracle": orc,
+                    "crashed": dead, "crash_info": info if dead else None})
     return out
 
 
@@ -201,8 +213,12 @@ def report(ctx, exe, r, what_prefix=""):
     """turn one bad result into a violation (shrunk)"""
     case = r["case"]
     if r["crashed"]:
-        ctx.violation("crash", "harness crashed (not a RuntimeError) while executing an op list",
-                      {"case": case, "dumps_before_crash": len(r["impl"])})
+        why, tail = r.get("crash_info") or (None, "")
+        ctx.violation("crash", what_prefix + "the real code crashed / aborted / timed out (not a RuntimeError) while executing an op list"
+                      + (" [%s]" % why if why else ""),
+                      {"slots": case["n"], "capacity": case["cap"], "track_order": ["none", "init_charge", "reindex_shuffle"][case["order"]],
+                       "max_events": case["nev"], "ops": case["ops"], "harness_input": gen.harness_text(case),
+                       "ops_completed_before_crash": len(r["impl"]), "output_tail": tail[-600:]})
         return
     has_oracle = r["oracle"] is not None
     if has_oracle:
@@ -233,6 +249,18 @@ def report(ctx, exe, r, what_prefix=""):
 
 
 def run(ctx):
+    try:
+        _run(ctx)
+    except vlib.BuildError:
+        raise
+    except Exception:
+        # nothing the real code does may turn into an "internal error" of the check
+        import traceback
+        ctx.violation("crash", "the check could not interpret the behaviour of the real code (see traceback)",
+                      {"traceback": traceback.format_exc()[-3000:]}, no_input=True)
+
+
+def _run(ctx):
     quick = ctx.tier == "quick"
     # VERIF_SCALE (default 1) shrinks/grows the number of generated cases (used by the mutation self-tests)
     scale = float(os.environ.get("VERIF_SCALE", "1") or 1)
